@@ -208,7 +208,10 @@ impl Check for C01 {
         let streams: Vec<Value> = (0..nstreams)
             .map(|_| json!({"up": gen_dir(&mut g, big, &mut budget, &["direct", "direct", "queued", "mixed"]), "down": gen_dir(&mut g, big, &mut budget, &["queued", "queued", "direct"])}))
             .collect();
-        json!({"net": net, "padding": gen_scheme_small(&mut g), "streams": streams})
+        // a peer (or a network path) that stops moving bytes for a long but finite time while the transfer is under
+        // way: writers park inside the transport for seconds to a minute, then everything resumes — a delay, nothing more
+        let long_stall = if g.chance(12) { json!({"dir": *g.pick(&["c2s", "s2c", "both"]), "at_us": *g.pick(&[0u64, 50, 500, 5_000, 50_000]), "for_ms": *g.pick(&[3_000u64, 11_000, 31_000, 61_000])}) } else { Value::Null };
+        json!({"net": net, "padding": gen_scheme_small(&mut g), "streams": streams, "long_stall": long_stall})
     }
     fn horizon(&self, _p: &Value) -> Duration {
         Duration::from_secs(2_000)
@@ -228,6 +231,24 @@ impl Check for C01 {
             if let Err(e) = &pair.start_result {
                 out.viol("start", "start-failed", format!("start_client failed: {}", e));
                 return out;
+            }
+            if plan["long_stall"].is_object() {
+                let ls = plan["long_stall"].clone();
+                let (c2s, s2c) = (pair.c2s.clone(), pair.s2c.clone());
+                anytls_simnet::spawn(async move {
+                    tokio::time::sleep(Duration::from_micros(ls["at_us"].as_u64().unwrap_or(0))).await;
+                    let dir = ls["dir"].as_str().unwrap_or("c2s").to_string();
+                    if dir != "s2c" {
+                        c2s.set_stalled(true);
+                    }
+                    if dir != "c2s" {
+                        s2c.set_stalled(true);
+                    }
+                    anytls_simnet::world::fault_fired("transport.peer_stall_long_finite");
+                    tokio::time::sleep(Duration::from_millis(ls["for_ms"].as_u64().unwrap_or(3_000))).await;
+                    c2s.set_stalled(false);
+                    s2c.set_stalled(false);
+                });
             }
             let streams = plan["streams"].as_array().cloned().unwrap_or_default();
             let mut handles = Vec::new();
@@ -327,7 +348,7 @@ impl Check for C01 {
         out
     }
     fn rule(&self) -> &'static str {
-        "(1 case in 20 is the whole system: 1-4 concurrent SOCKS5 / HTTP CONNECT tunnels over real rustls moving boundary-size byte streams both ways at once; in a third of those with two or more tunnels one tunnel's application, target or both stop reading while 100-300 KB are sent to them, and every other tunnel must still be complete and exact) one case = a seeded plan (1-6 streams, per direction 0-7 chunks with boundary-biased sizes 0..200000 submitted through write_data_frame / send_data / both, reader buffer sizes 1..70000, a padding scheme, transport and scheduler knobs) executed under the seeded scheduler; non-trivial = bytes were moved AND (a boundary-size or oversize or empty chunk is present OR fragmentation/deferral/yield perturbation is active); distinct = distinct (plan hash, task-poll-order fingerprint) pairs"
+        "(1 case in 8 of the session-level plans stalls one or both directions of the transport for 3 / 11 / 31 / 61 virtual seconds in mid-transfer and then resumes) (1 case in 20 is the whole system: 1-4 concurrent SOCKS5 / HTTP CONNECT tunnels over real rustls moving boundary-size byte streams both ways at once; in a third of those with two or more tunnels one tunnel's application, target or both stop reading while 100-300 KB are sent to them, and every other tunnel must still be complete and exact) one case = a seeded plan (1-6 streams, per direction 0-7 chunks with boundary-biased sizes 0..200000 submitted through write_data_frame / send_data / both, reader buffer sizes 1..70000, a padding scheme, transport and scheduler knobs) executed under the seeded scheduler; non-trivial = bytes were moved AND (a boundary-size or oversize or empty chunk is present OR fragmentation/deferral/yield perturbation is active); distinct = distinct (plan hash, task-poll-order fingerprint) pairs"
     }
     fn real_components(&self) -> Vec<&'static str> {
         vec!["Session (client+server): recv_loop, process_stream_data, write_frame, write_with_padding, handle_frame", "Stream", "StreamReader", "FrameCodec", "PaddingFactory"]
